@@ -1625,6 +1625,7 @@ def np_nonzero(ctx: Ctx, a: Arr):
         r.in_range_of = p
         c.in_range_of = mcols
         r.ghost["nonzero2"] = c.ghost["nonzero2"] = (K, ri, ci, pos)
+        ctx.log_ghost("nonzero2", (K, ri, ci, pos))
         return (r, c)
     raise PathAbort("nonzero of rank > 2", ctx.cur_line)
 
